@@ -15,6 +15,7 @@
 //
 #include <errno.h>          // for errno
 #include <string.h>         // for strerror
+#include <algorithm>        // for replace
 #include <iomanip>          // for operator<<, setw, setfill, hex, uppercase
 #include <iostream>         // for operator<<, basic_ostream, ofstream, ostream
 #include <optional>         // for optional
@@ -38,6 +39,16 @@ using DFS::stringutil::rtrim;
 
 namespace
 {
+  // DFS file names (and directory characters) may contain '/'.  Used
+  // unchanged in a host file name it would act as a path separator,
+  // so that a catalog entry such as "../../x" would be created
+  // outside the destination directory.
+  string host_file_name(string dfs_name)
+  {
+    std::replace(dfs_name.begin(), dfs_name.end(), '/', '_');
+    return dfs_name;
+  }
+
   bool create_inf_file(const string& name,
 		       unsigned long crc,
 		       const DFS::CatalogEntry& entry)
@@ -141,7 +152,7 @@ public:
 	  {
 	    output_basename = string(1, entry.directory()) + "." + rtrim(entry.name());
 	  }
-	const string output_body_file = dest_dir + output_basename;
+	const string output_body_file = dest_dir + host_file_name(output_basename);
 
 	std::ofstream outfile(output_body_file, std::ofstream::out);
 	if (!outfile.good())
